@@ -90,6 +90,8 @@ class C20(Prop):
                         base["spelling"] = "ix"
                     if base["spelling"] == "ix_from_position":
                         base["spelling"] = "loc"
+                    if base["spelling"] == "take" and base["mode"] == "position":
+                        base["spelling"] = "take_position"
                 if base["spelling"] in ("take_dict_pos",):
                     base["spelling"] = "take_dict"
                     for it in base["index"]["items"]:
